@@ -4,7 +4,7 @@
    ev |-> <<[e, t, label, nclose, dbegin, dend], ...>>].  One event per scheduler step (sched.step(t)) or Tick.
    Logged per step: the park label the real thread reached (must equal the label of pc'[t]), how many close
    hooks began, whether a dispatch began / ended.  Everything else is inferred by Sticky's own actions.
-   Registers: tid -> furthest event index matched; 1000+tid -> set of property clauses violated on the way. *)
+   Registers: 2*tid -> furthest event index matched; 2*tid+1 -> set of property clauses violated on the way. *)
 EXTENDS Sticky, Json, IOUtils, Sequences, TLCExt
 Traces == JsonDeserialize(IOEnv.TRACE_FILE)
 VARIABLES tid, l
@@ -32,9 +32,9 @@ Bad == {c \in {"Mutex", "CloseAtMostOnce", "NoCloseDuringDispatch", "NoDispatchA
           \/ (c = "Mutex" /\ ~Mutex) \/ (c = "CloseAtMostOnce" /\ ~CloseAtMostOnce)
           \/ (c = "NoCloseDuringDispatch" /\ ~NoCloseDuringDispatch)
           \/ (c = "NoDispatchAfterClose" /\ ~NoDispatchAfterClose)}
-Track == /\ TLCSet(tid, IF TLCGet(tid) < l THEN l ELSE TLCGet(tid))
-         /\ TLCSet(1000 + tid, TLCGet(1000 + tid) \cup Bad)
-ASSUME \A i \in 1..Len(Traces) : TLCSet(i, 0) /\ TLCSet(1000 + i, {})
+Track == /\ TLCSet(2 * tid, IF TLCGet(2 * tid) < l THEN l ELSE TLCGet(2 * tid))
+         /\ TLCSet((2 * tid + 1), TLCGet((2 * tid + 1)) \cup Bad)
+ASSUME \A i \in 1..Len(Traces) : TLCSet(2 * i, 0) /\ TLCSet((2 * i + 1), {})
 Verdicts == \A i \in 1..Len(Traces) :
-   PrintT("@@J@@" \o ToJson([tid |-> i, matched |-> TLCGet(i) - 1, len |-> Len(Traces[i].ev), bad |-> TLCGet(1000 + i)]))
+   PrintT("@@J@@" \o ToJson([tid |-> i, matched |-> TLCGet(2 * i) - 1, len |-> Len(Traces[i].ev), bad |-> TLCGet((2 * i + 1))]))
 ==========================================================================================
